@@ -390,3 +390,36 @@ def run(rec):
                             idx = (idx[:, None] * (d0 * d1) + pg[None, :]).reshape(-1)
                         rec.check(H5.shape == Hs.shape and np.allclose(H5[np.ix_(idx, idx)], Hs, atol=tol * scale), 'MPO.group_sites:dense', '', inp)
     segment_checks(rec, rng, quick)
+    integer_strengths(rec)
+
+
+def integer_strengths(rec):
+    """strengths given as Python / numpy integers (a legal scalar or array) with and without explicit_plus_hc: same operator as with floats"""
+    from tenpy.models.model import CouplingModel, MPOModel
+    from tenpy.models.lattice import Chain
+    from tenpy.networks.site import SpinHalfSite
+    L = 4
+    site = SpinHalfSite('Sz')
+    sites = [site] * L
+    ref = None
+    for epc in (False, True):
+        for kind, conv in (('float', float), ('int', int), ('int array', lambda x: np.full(L, int(x)))):
+            lat = Chain(L, site, bc='open', bc_MPS='finite')
+            inp = {'explicit_plus_hc': epc, 'strength type': kind}
+            rec.begin(f'C10 integer strengths {inp}')
+            rec.case(('int-strength', epc, kind), True)
+
+            def build():
+                class M(CouplingModel, MPOModel):
+                    def __init__(self):
+                        CouplingModel.__init__(self, lat, explicit_plus_hc=epc)
+                        self.add_onsite(conv(2), 0, 'Sz')
+                        self.add_coupling(int(3) if kind != 'float' else 3., 0, 'Sz', 0, 'Sz', 1)
+                        self.add_coupling(int(1) if kind != 'float' else 1., 0, 'Sp', 0, 'Sm', 1, plus_hc=True)
+                        MPOModel.__init__(self, lat, self.calc_H_MPO())
+                return mpo_dense(M().H_MPO, sites)
+            ok, Hd = rec.guarded('integer-strengths:exception', build, inp)
+            if ok:
+                if ref is None:
+                    ref = Hd
+                rec.check(np.allclose(Hd, ref, atol=1e-12), 'integer-strengths:dense', f'max dev {np.abs(Hd - ref).max()}', inp)
